@@ -2,13 +2,14 @@
 
 E1: (a) DenseOutput under contract (props/dense.py): add_interpolant keeps the ordering/coverage invariant and the cache invariant,
 lookup (scalar, gradient, vector) answers every query inside the integrated range from the piece whose interval contains it,
-remove_interpolant(0) drops the oldest piece; (b) integrate() with dense output kept, forward direction (props/integrate_core.py):
-exactly one piece per recorded step, piece i spanning [t_i, t_{i+1}], on normal and exceptional exit and for continued calls;
+remove_interpolant drops the oldest / newest piece per run direction; (b) integrate() with dense output kept, both run directions
+(props/integrate_core.py, the real add_interpolant executed on symbolic-length lists): exactly one piece per recorded step, the piece
+of step i spanning [t_i, t_{i+1}], on normal and exceptional exit and for continued calls;
 (c) TableauIntegrator.dense_output builds the Hermite piece from (t, y, f) at both ends of the last step, and the integrators'
 __call__ leave initial_rhs == rhs(t, y), final_rhs == rhs(t + dTime, y + dState) (uninterpreted rhs, LinComb domain), whatever
 point the previous call ended at; with C17 (end values / end slopes / cubic exactness of the Hermite piece) this gives: recorded
 states reproduced at recorded times, C^1 joins with slopes equal to the right-hand side.  O(h^4) between nodes: cubic exactness
-(C17) + Peano kernel theorem (A8), constant not computed.  Backward-in-time runs: recorded known finding F11.
+(C17) + Peano kernel theorem (A8), constant not computed.  Backward-in-time lookups: defect F11, repaired (obligations discharged).
 """
 import z3
 
@@ -164,7 +165,7 @@ def run(tier):
     R.assume("A1", "A2", "A3", "A4", "A8")
     R.assume("Richardson wrappers: their pieces come from the last sub-division; only 'they tile [t, t + dTime]' is covered, natively (bounded); 'to tolerance' is bounded")
     R.assume("interpolation error O(h^4) between nodes: cubic exactness (C17, proved) + Peano kernel theorem (A8); the constant is not computed")
-    R.assume("integrate() with dense output is verified for forward calls (target above the current time) on trajectories recorded forward; backward runs are the known finding F11; event handling is C07-C09")
+    R.assume("integrate() with dense output is verified for forward calls on trajectories recorded forward and for backward calls on trajectories recorded backward (one DenseOutput serves one direction); event handling is C07-C09")
     R.trust("z3", "pyvc executor (symbolic-length lists as parallel z3 arrays)", "contracts of search_bisection(_vec) proved in C17")
     src = source.load_all()
     reg = solver.Registry(solver.THOROUGH_TIMEOUT_MS if tier == "thorough" else 30000)
@@ -187,6 +188,8 @@ def run(tier):
         R.under_contract(src.func(IC.F, "OdeSystem.integrate"))
         IC.verify_integrate_dense(src, reg, PID + "/integrate[dense,forward]", callbacks=0)
         IC.verify_integrate_dense(src, reg, PID + "/integrate[dense,forward,callback]", callbacks=1)
+        IC.verify_integrate_dense(src, reg, PID + "/integrate[dense,backward]", callbacks=0, direction=-1)
+        IC.verify_integrate_dense(src, reg, PID + "/integrate[dense,backward,callback]", callbacks=1, direction=-1)
     except Unsupported as e:
         reg.undecided(PID + "/executor/unsupported", "unsupported", "executor", str(e))
     for ob in list(reg.obligations):
